@@ -67,9 +67,39 @@ theorem mutated_trailer_checksum_rejected (P : Params) (ht : P.hasTrailer = true
       ∀ l1 l2 d s d', f.chunks = l1 ++ (d, s) :: l2 →
         f.trailerLine = P.trailerName ++ 58 :: g ((f.chunks.map (·.1)).flatten) → d' ≠ d →
         ∃ e, check P { f with chunks := l1 ++ (d', s) :: l2 } = .error e) :=
-  ⟨fun v' hl hv => wrong_trailer_checksum_rejected P ht g hg hname f v' hl hv,
+  ⟨fun v' hl hv => wrong_trailer_checksum_rejected P ht g hg f P.trailerName v' hl hname.2 hname.1 hv,
    fun hcg hval l1 l2 d s d' hf hl hd =>
      mutated_data_caught_by_checksum P ht g hg hcg hname hval f l1 l2 d s d' hf hl hd⟩
+
+/-- **declared_trailer_validated_in_any_case.** Header field names are case-insensitive: however the
+`x-amz-trailer` header spells a supported checksum algorithm (`X-Amz-Checksum-CRC32`, blanks around
+it, …) and however the trailer line spells its name, the reader is given that algorithm's hash, and
+a checksum value that is not the checksum of the received payload fails the request. -/
+theorem declared_trailer_validated_in_any_case (hashOf : Bytes → Option (Bytes → Bytes)) (hdr : Bytes)
+    (g : Bytes → Bytes) (hg : hashOf (lower (trimSpace hdr)) = some g) (P : Params) (f : Frame)
+    (n v' : Bytes) (hl : f.trailerLine = n ++ 58 :: v') (hn : (58 : UInt8) ∉ n)
+    (hsame : lower (trimSpace n) = lower (trimSpace hdr))
+    (hv : trimSpace v' ≠ g ((f.chunks.map (·.1)).flatten)) :
+    (withDeclaredTrailer hashOf true hdr P).cksum = some g ∧
+    ∃ e, check (withDeclaredTrailer hashOf true hdr P) f = .error e := by
+  have hc : (withDeclaredTrailer hashOf true hdr P).cksum = some g := by
+    simp [withDeclaredTrailer, declaredTrailer, hg]
+  exact ⟨hc, wrong_trailer_checksum_rejected _ rfl g hc f n v' hl hn hsame hv⟩
+
+/-- Two spellings of the same declaration configure the reader identically. -/
+theorem declared_trailer_case_insensitive (hashOf : Bytes → Option (Bytes → Bytes)) (t : Bool) (h1 h2 : Bytes)
+    (h : lower (trimSpace h1) = lower (trimSpace h2)) (P : Params) :
+    withDeclaredTrailer hashOf t h1 P = withDeclaredTrailer hashOf t h2 P := by
+  simp [withDeclaredTrailer, declaredTrailer, h]
+
+/-- **missing_trailer_signature_rejected.** With a signed trailer, a trailer section in which no
+`x-amz-trailer-signature` line is recognised (renamed, removed, blanked out) fails the request —
+an absent signature is never accepted as valid (MAC tags are non-empty). -/
+theorem missing_trailer_signature_rejected (P : Params) (ht : P.hasTrailer = true) (hts : P.trailerSigned = true)
+    (hmac : ∀ k m, P.c.hmac k m ≠ []) (prev payload rest : Bytes)
+    (hno : (readTrailerSection rest).2 = []) :
+    finish P prev payload rest = .error .sigMismatch :=
+  finish_without_trailer_signature P ht hts hmac prev payload rest hno
 
 -- ---------------------------------------------------------------- the two server configurations
 
@@ -182,6 +212,11 @@ example (signed trailer : Bool) :
     decode (toyParams signed trailer) (encode (toyParams signed trailer) (b! "hello world") [3, 4]) =
       .ok (b! "hello world") :=
   decode_encode _ (toyParams_ok signed trailer) _ (by decide) _
+
+/-- the toy MAC never returns an empty tag; a renamed signature line is indeed not recognised -/
+example : (∀ k m, toyMac k m ≠ []) ∧
+    (readTrailerSection (b! "x-amz-checksum-crc32:AAAA\r\nx-amz-trailer-signaturq:abcd\r\n\r\n")).2 = [] :=
+  ⟨fun k m => by simp [toyMac], by decide⟩
 
 example : CollisionFree toySha ∧ Unforgeable toyMac ∧ CollisionFree toyCk :=
   ⟨toySha_collisionFree, toyMac_unforgeable, fun a b h => hexL_injective a b h⟩
